@@ -463,8 +463,16 @@ impl LoopDetector {
     fn inc_depth(&mut self, stream: &Stream) -> Result<()> {
         if self.depth < 10 {
             self.depth += 1;
+            #[cfg(roxmltree_verif)]
+            crate::verif::push_event(|| {
+                crate::verif::Event::Loop(1, true, self.depth, self.references)
+            });
             Ok(())
         } else {
+            #[cfg(roxmltree_verif)]
+            crate::verif::push_event(|| {
+                crate::verif::Event::Loop(1, false, self.depth, self.references)
+            });
             Err(Error::EntityReferenceLoop(stream.gen_text_pos()))
         }
     }
@@ -479,19 +487,36 @@ impl LoopDetector {
         if self.depth == 0 {
             self.references = 0;
         }
+
+        #[cfg(roxmltree_verif)]
+        crate::verif::push_event(|| {
+            crate::verif::Event::Loop(2, true, self.depth, self.references)
+        });
     }
 
     #[inline]
     fn inc_references(&mut self, stream: &Stream) -> Result<()> {
         if self.depth == 0 {
             // Allow infinite amount of references at zero depth.
+            #[cfg(roxmltree_verif)]
+            crate::verif::push_event(|| {
+                crate::verif::Event::Loop(0, true, self.depth, self.references)
+            });
             Ok(())
         } else {
             if self.references == u8::MAX {
+                #[cfg(roxmltree_verif)]
+                crate::verif::push_event(|| {
+                    crate::verif::Event::Loop(0, false, self.depth, self.references)
+                });
                 return Err(Error::EntityReferenceLoop(stream.gen_text_pos()));
             }
 
             self.references += 1;
+            #[cfg(roxmltree_verif)]
+            crate::verif::push_event(|| {
+                crate::verif::Event::Loop(0, true, self.depth, self.references)
+            });
             Ok(())
         }
     }
@@ -558,6 +583,18 @@ impl<'input> Context<'input> {
         text: Cow<'input, str>,
         range: Range<usize>,
     ) -> Result<()> {
+        #[cfg(roxmltree_verif)]
+        crate::verif::push_event(|| {
+            let text = match &text {
+                Cow::Borrowed(t) => StringStorage::Borrowed(t),
+                Cow::Owned(t) => StringStorage::new_owned(t.as_str()),
+            };
+            crate::verif::Event::TextFragment(
+                crate::verif::raw_storage(self.doc.text, &text),
+                (range.start, range.end),
+            )
+        });
+
         if self.after_text.is_empty() {
             let text = match &text {
                 Cow::Borrowed(text) => StringStorage::Borrowed(text),
@@ -661,6 +698,9 @@ fn parse(text: &str, opt: ParsingOptions) -> Result<Document> {
 impl<'input> tokenizer::XmlEvents<'input> for Context<'input> {
     #[inline(always)]
     fn token(&mut self, token: tokenizer::Token<'input>) -> Result<()> {
+        #[cfg(roxmltree_verif)]
+        crate::verif::on_token(self.doc.text, &token);
+
         match token {
             tokenizer::Token::ProcessingInstruction(target, value, range) => {
                 self.reset_after_text();
@@ -722,6 +762,11 @@ fn process_attribute<'input>(
     ctx: &mut Context<'input>,
 ) -> Result<()> {
     let value = normalize_attribute(value, ctx)?;
+
+    #[cfg(roxmltree_verif)]
+    crate::verif::push_event(|| {
+        crate::verif::Event::AttrValue(crate::verif::raw_storage(ctx.doc.text, &value))
+    });
 
     if prefix == XMLNS {
         // The xmlns namespace MUST NOT be declared as the default namespace.
@@ -1005,6 +1050,9 @@ fn process_text<'input>(
     range: Range<usize>,
     ctx: &mut Context<'input>,
 ) -> Result<()> {
+    #[cfg(roxmltree_verif)]
+    let _verif_depth = crate::verif::DepthGuard::new(2);
+
     // Add text as is if it has only valid characters.
     if memchr2(b'&', b'\r', text.as_bytes()).is_none() {
         ctx.append_text(Cow::Borrowed(text), range)?;
@@ -1155,6 +1203,9 @@ fn normalize_attribute<'input>(
 }
 
 fn _normalize_attribute(text: StrSpan, buffer: &mut TextBuffer, ctx: &mut Context) -> Result<()> {
+    #[cfg(roxmltree_verif)]
+    let _verif_depth = crate::verif::DepthGuard::new(1);
+
     let mut stream = Stream::from_substr(ctx.doc.text, text.range());
     while !stream.at_end() {
         // Safe, because we already checked that the stream is not at the end.
